@@ -99,6 +99,8 @@ return caught, s1, ok2, type(m2), coroutine.status(co)`, "registry overflow|dead
 	{"C18", "maxn-ignores-cleared-keys", `local t = {1, 2, 3} t[7.5] = "x" t[7.5] = nil t[2^27] = "y" t[2^27] = nil t[-3] = "z" local u = {} u[7.5] = 1 local w = {} w[2^27] = 1 w[2^27] = nil w[9.25] = 2 return table.maxn(t), table.maxn({}), table.maxn(u), table.maxn(w)`, "3|0|7.5|9.25", nil},
 	{"C18", "remove-from-a-list-emptied-by-assignment", `local t = {1, 2, 3} t[3] = nil t[2] = nil t[1] = nil local u = {1, 2} u[2] = nil return select("#", table.remove(t)), select("#", table.remove(t, nil)), #t, table.remove(u), select("#", table.remove(u)), #u`, "0|0|0|1|0|0", nil},
 	{"C19", "read-by-count-beyond-65536", `local f = io.open("$F", "w") for i = 1, 20 do f:write(("%05d"):format(i):rep(2000)) end f:close() f = io.open("$F") local a = f:read(65536) local p1 = f:seek() local b = f:read(65537) local p2 = f:seek() f:seek("set", 1) local c = f:read(131073) local p3 = f:seek() local d = f:read(300000) local e = f:read(1) f:close() return #a, p1, #b, p2, #c, p3, c:sub(-5), #d, e`, "65536|65536|65537|131073|131073|131074|40001|68926|nil", nil},
+	{"C09", "nil-and-nan-keys-raise-also-for-a-nil-value", `local t = {} local nan = 0/0 return pcall(function() t[nil] = nil end), pcall(function() t[nan] = nil end), pcall(function() return {[nil] = nil} end), pcall(function() t[nil] = 1 end), pcall(function() t[nan] = 1 end), pcall(rawset, t, nil, nil), pcall(rawset, t, nan, nil), next(t) == nil, t[nil] == nil and t[nan] == nil`, "false|false|false|false|false|false|false|true|true", nil},
+	{"C01", "function-statements-behind-300-constants", `local parts = {"local cp = {"} for i = 1, 300 do parts[#parts + 1] = (i + 0.5) .. "," end parts[#parts + 1] = "} local obj = {} function obj:name(x) return self == obj, x end function obj.plain(x) return x end local a = {b = {}} function a.b.c() return 'abc' end function a.b:m() return self == a.b end function gfun() return 'g' end local function lfun() return 'l' end return obj:name(7), obj.plain(8), a.b.c(), a.b:m(), gfun(), lfun(), #cp" return loadstring(table.concat(parts))()`, "true|8|abc|true|g|l|300", nil},
 	// eighth batch
 	{"C19", "read-format-must-be-a-number-or-a-string", `local f = io.open("$F") local a, b, c = pcall(f.read, f, true), pcall(f.read, f, nil), pcall(f.read, f, {}) local d = f:read(2, "*l") f:close() return a, b, c, d`, "false|false|false|01", nil},
 	{"C19", "io.lines-on-a-closed-default-input-raises-at-once", `io.input("$F") io.close(io.input()) local closed = pcall(io.lines) io.input("$F") local open = pcall(io.lines) return closed, open`, "false|true", nil},
